@@ -138,7 +138,7 @@ def _has_quant(e):
 
 def _solve_one(i):
     ob = _OBS[i]
-    timeout_ms = _CFG.get("timeout_ms", 20000)
+    timeout_ms = int(_CFG.get("timeout_ms", 20000) * (getattr(ob, "budget", 1) or 1))
     t0 = time.time()
     if getattr(ob, "forced", None):   # verdict of an abstract interpretation that could not decide (possible, not definite)
         return (i, ob.forced, 0.0, "alias-ai", {"unsat": "no effect outside the frame in the may-alias abstraction",
